@@ -37,6 +37,8 @@ CloseBrace(b, j, depth) == IF j > Len(b) THEN 0
 EndAt(b, j) == IF j + 4 <= Len(b) /\ SubSeq(b, j, j+4) = EndPrefix
                THEN (LET c == CloseBrace(b, j+5, 0) IN IF c = 0 THEN 0 ELSE c + 1)
                ELSE 0
+BeginPrefix == <<"\\","b","e","g","i","n","{">>
+Occurs(p, a) == \E st \in 1..(Len(a) - Len(p) + 1) : SubSeq(a, st, st + Len(p) - 1) = p
 RECURSIVE AlignIns(_, _, _, _)
 AlignIns(a, b, i, j) ==
   \/ (i > Len(a) /\ j > Len(b))
@@ -44,6 +46,11 @@ AlignIns(a, b, i, j) ==
   \/ (i <= Len(a) /\ WsC(a[i]) /\ LET k == WsRunEnd(a, i) IN k <= Len(a) /\ a[k] \in {"{", "["} /\ AlignIns(a, b, k, j))
   \/ (j <= Len(b) /\ b[j] \in {"}", "]"} /\ AlignIns(a, b, i, j+1))
   \/ (j <= Len(b) /\ b[j] = "\\" /\ LET e == EndAt(b, j) IN e # 0 /\ AlignIns(a, b, i, e))
+  \* an inserted \end{name} whose name is not a balanced group by itself (it holds a comment sign or an unmatched brace): accepted
+  \* when the input opens exactly that name, i.e. "\begin{" followed by the same characters occurs in the input
+  \/ (j + 4 <= Len(b) /\ SubSeq(b, j, j+4) = EndPrefix
+      /\ \E k \in (j+5)..Len(b) : /\ b[k] = "}" /\ Occurs(BeginPrefix \o SubSeq(b, j+5, k-1), a)
+                                  /\ AlignIns(a, b, i, k+1))
 OnlyClosersInserted(a, b) == AlignIns(a, b, 1, 1)
 
 
